@@ -32,7 +32,10 @@ KINDS = ['pass', 'fail', 'error', 'skip_body', 'skip_setup', 'skip_dec',
          'xfail', 'uxs', 'teardown_err', 'body+teardown', 'fail+teardown',
          'sub:1,0,1', 'sub:2,0,0', 'setup_err', 'cleanup_err',
          'sub:0,0,2', 'sub_skip', 'redir_sub_fail', 'leave_replaced',
-         'swap_fail', 'swap_pass', 'nested_fail']
+         'swap_fail', 'swap_pass', 'nested_fail',
+         # tests that close the capture buffers (what they wrote before is gone
+         # with the stream they closed; judged on the other clauses only)
+         'close_out', 'close_fail']
 WRITES = ['none', 'o', 'o-', 'e', 'ob', 'oe', 'ws', 'w2', 'wsub']
 SHOWN = {'fail', 'error', 'uxs', 'teardown_err', 'body+teardown',
          'fail+teardown', 'sub:1,0,1', 'sub:2,0,0', 'setup_err', 'cleanup_err',
@@ -45,7 +48,7 @@ TOUCHES = {'leave_replaced'}
 # tests that put back a stream object they saved earlier (contextlib.
 # redirect_stdout does): what they write after that goes wherever they pointed
 # sys.stdout themselves and is not judged
-REINSTALLS = {'redir_sub_fail', 'swap_fail', 'swap_pass'}
+REINSTALLS = {'redir_sub_fail', 'swap_fail', 'swap_pass', 'close_out', 'close_fail'}
 
 
 def _o_filter(case):
